@@ -426,6 +426,42 @@ func refusedMarkers() {
 	}
 }
 
+// refusedLeavesNoResidue: WriteAny(x) returned an error (and callers such as Helper.UpdateHashState ignore
+// it); the SAME hash object - and a clone taken from it afterwards - must then treat every later item y
+// exactly as an object that never saw x.
+func refusedLeavesNoResidue() {
+	n := 0
+	for x := range items {
+		if !bad[x] {
+			continue
+		}
+		for y := range items {
+			if bad[y] {
+				continue
+			}
+			h1, h2 := hash.New(), hash.New()
+			var s1, s2, s3 string
+			if p, _, _ := vkit.Try(func() {
+				_ = h1.WriteAny(vals[x])
+				c := h1.Clone()
+				_ = h1.WriteAny(vals[y])
+				_ = c.WriteAny(vals[y])
+				_ = h2.WriteAny(vals[y])
+				s1, s2, s3 = sum(h1), sum(h2), sum(c)
+			}); p {
+				continue // panics are reported by the sequence enumeration
+			}
+			n++
+			if s1 != s2 || s3 != s2 {
+				res.Violate("refused-item-leaves-residue|"+items[x].Type, fmt.Sprintf("WriteAny(%s) is refused with an error, but the same hash object (or its clone) then hashes %s differently from an object that never saw the refused item: bytes of the refused item stayed behind", items[x].Name, items[y].Name),
+					replay{Kind: "item", A: []string{items[x].Name, items[y].Name}})
+				break
+			}
+		}
+	}
+	res.Extra["refused_then_accepted_pairs_on_one_object"] = int64(n)
+}
+
 // otherEntryPoints: the same sequence through hash.New(initialData...) and through Fork(data...).
 // Neither can report an error, so for a sequence with a refused item the digest is compared
 // with the digest of the sequence without it: equal means the item vanished silently.
@@ -490,6 +526,7 @@ func runSequences(maxLen int) {
 	e.rec(seq{}, hash.New(), false, nil, nil, -1)
 	if vkit.ShardI() == 0 {
 		refusedMarkers()
+		refusedLeavesNoResidue()
 	}
 	// distinct identities among accepted items -> number of distinct identity lists
 	distinct := map[string]bool{}
